@@ -1,5 +1,6 @@
 ---------------------------- MODULE Judge_Consume ----------------------------
-(* Judge of recorded consuming evaluations: [text, outcome, vars, borrow, vec, iter, clones_vec, clones_iter, hole] *)
+(* Judge of recorded consuming evaluations: [text, ghost, outcome, vars, borrow, vec, iter, clones_vec, clones_iter, hole] *)
+(* ghost: names added to the variable list without occurring (the recorder builds `e + g*0` through the deep form)    *)
 EXTENDS Grammar, Json, IOUtils
 Rec == ndJsonDeserialize(IOEnv.TRACE)
 T0 == Rec[1].table
@@ -12,14 +13,15 @@ Judge(r) ==
   LET T == TabOf(r)
       d == Den(T, r.text)
   IN IF d.st # "ok" THEN "ok"                              \* only well-formed texts are constrained here
-     ELSE IF r.outcome # "ok" THEN "bad:outcome-" \o r.outcome
-     ELSE LET vs == Vars(d.toks) IN
+     ELSE IF r.outcome \notin {"ok", "script"} THEN "bad:outcome-" \o r.outcome
+     ELSE IF r.outcome = "script" THEN "ok"                \* the ghost construction itself failed: nothing observed
+     ELSE LET vs == SortNames(Range(Vars(d.toks)) \cup Range(r.ghost)) IN
           IF r.vars # vs THEN "bad:vars"
           ELSE IF r.hole THEN "bad:moved-out-placeholder-reached-an-operator"
           ELSE IF ~Same(T, r.borrow, d.den) THEN "bad:borrowing-eval"
           ELSE IF r.vec # r.borrow THEN "bad:eval_vec-differs"
           ELSE IF r.iter # r.borrow THEN "bad:eval_iter-differs"
-          ELSE IF \E k \in 1..Len(vs) : Occurrences(d.toks, vs[k]) = 1 /\ (r.clones_vec[k] # 0 \/ r.clones_iter[k] # 0)
+          ELSE IF \E k \in 1..Len(vs) : Occurrences(d.toks, vs[k]) <= 1 /\ (r.clones_vec[k] # 0 \/ r.clones_iter[k] # 0)
                THEN "bad:single-occurrence-cloned"
           ELSE "ok"
 Verdicts == i <= Len(Rec) => PrintT(<<"V", Rec[i].case, "wf", Judge(Rec[i]), "consume">>)
